@@ -1,6 +1,7 @@
 #!/bin/bash
 # Sensitivity regression: applies every seeded change in turn to /repo, runs the quick check of the property it targets
-# (plus the checks recorded as catching it) and reports which ones are still caught. Leaves /repo clean.
+# (then the checks recorded as catching it) and reports which ones are still caught. With HARVEST=1 the smallest shrunk
+# replay of each caught change is copied to replays/<ID>/seed-<name>.json (the regression tier). Leaves /repo clean.
 # usage: tools/run_seeds.sh [seed-dir-names...]      exit 0 iff every change is caught by at least one check
 cd "$(dirname "$0")/.."
 seeds=${@:-$(ls seeded)}
@@ -9,14 +10,22 @@ for s in $seeds; do
   d=seeded/$s
   [ -f $d/patch.diff ] || continue
   target=${s%%-*}
-  also=$(python3 -c "import json;m=json.load(open('$d/meta.json'));print(' '.join(x for x in m.get('caught_by',[]) if x!='$target'))" 2>/dev/null)
-  out=$(SKIP_BASELINE=1 tools/try_seed.sh $d/patch.diff $target 2>&1); rc=$?
-  caught=$(echo "$out" | grep -a -o "C[0-9]* rc=1" | tr '\n' ' ')
-  if [ $rc -ne 0 ] && [ -n "$also" ]; then
-    out=$(SKIP_BASELINE=1 tools/try_seed.sh $d/patch.diff $also 2>&1); rc=$?
-    caught="$caught $(echo "$out" | grep -a -o "C[0-9]* rc=1" | tr '\n' ' ')"
-  fi
-  if [ $rc -eq 0 ]; then echo "$s caught: $caught"; else echo "$s MISSED ($(echo "$out" | grep -a "rc=" | tr '\n' ' '))"; missed=$((missed+1)); fi
+  order=$(python3 -c "import json;m=json.load(open('$d/meta.json'));c=m.get('caught_by',[]);print(' '.join((['$target'] if '$target' in c else [])+[x for x in c if x!='$target']) or '$target')" 2>/dev/null)
+  caught=""
+  for id in $order; do
+    rm -rf /tmp/gtree-verif-nosave
+    out=$(SKIP_BASELINE=1 tools/try_seed.sh $d/patch.diff $id 2>&1); rc=$?
+    if [ $rc -eq 0 ]; then
+      caught=$id
+      if [ -n "$HARVEST" ]; then
+        best=$(ls -S /tmp/gtree-verif-nosave/$id/new/*.json 2>/dev/null | tail -1)
+        if [ -n "$best" ] && ! grep -q '"kind": "log"' $best; then mkdir -p replays/$id; cp $best replays/$id/seed-$s.json; fi
+      fi
+      break
+    fi
+  done
+  if [ -n "$caught" ]; then echo "$s caught by $caught"; else echo "$s MISSED (tried: $order)"; missed=$((missed+1)); fi
 done
+rm -rf /tmp/gtree-verif-nosave
 echo "missed: $missed"
 [ $missed -eq 0 ]
